@@ -447,3 +447,14 @@ pub fn to_json_string<T>(v: &T) -> (r: StdResult<String>)
 pub enum Order { Ascending, Descending }
 
 } // verus!
+verus! {
+// `String == Addr` (cosmwasm-std addresses.rs: compares with the inner string)
+impl PartialEqSpecImpl<Addr> for String {
+    open spec fn obeys_eq_spec() -> bool { true }
+    open spec fn eq_spec(&self, o: &Addr) -> bool { *self == o.0 }
+}
+impl PartialEq<Addr> for String {
+    #[verifier::external_body]
+    fn eq(&self, o: &Addr) -> (r: bool) ensures r == (*self == o.0) { unimplemented!() }
+}
+}
